@@ -68,7 +68,7 @@ CHECKS = {
                 'function-bit history) gives the exact expected downlink messages per accepted call; a rejected call must add nothing to the wire and leave bidib_get_state '
                 'unchanged; optimistic state is compared with the reference after each call. Aspect ids are generated as prefix chains in one configuration of three and unknown '
                 'ids as near misses of configured ones. Phases of 2-4 tasks issue train commands concurrently: the downlink must then be explained by ONE serial order of the '
-                'commands against the same reference (search over assignments respecting program order), and the final state must equal the model. A lost MSG_NODE_LOST followed by an immediate re-login elsewhere is part of the topology histories.',
+                'commands against the same reference (search over assignments respecting program order), and the final state must equal the model; when the command station reports manual drive commands for the same train meanwhile, one total order of commands and reports that respects real-time precedence must explain both the downlink and the final state (lost updates between a command and the receiver). A lost MSG_NODE_LOST followed by an immediate re-login elsewhere is part of the topology histories.',
         'ref': 'DESIGN.md section 3 C09', 'note': NOTE_COMMON + '; the values are generated per run, the history dependence (function bits, direction at speed 0, address changes after re-login) is what the simulation adds',
         'technique': 'deterministic simulation: command histories against SimBus with topology events + config->message reference model on the wire',
     },
